@@ -308,6 +308,53 @@ def same_name_duplicates():
                     yield {"title": "Top", "type": "object", "properties": props, "definitions": defs, container: {"Foo": json.loads(json.dumps(foo))}}
 
 
+def reuse_duplicates():
+    """--reuse-model on a module that holds an exact-duplicate enumeration and an exact-duplicate object in every order, with
+    further models behind them: every definition keeps a class (or an alias), no class is written twice, the module executes"""
+    enum = {"type": "string", "enum": ["red", "blue"]}
+    coat = {"type": "object", "properties": {"layers": {"type": "integer"}}}
+    parts = {"PrimaryColor": enum, "AccentColor": dict(enum), "Coating": coat, "PaintJob": json.loads(json.dumps(coat)),
+             "Wheel": {"type": "object", "properties": {"size": {"type": "integer"}}}, "Seat": {"type": "object", "properties": {"heated": {"type": "boolean"}}}}
+    orders = [["PrimaryColor", "AccentColor", "Coating", "PaintJob", "Wheel", "Seat"], ["Coating", "PaintJob", "PrimaryColor", "AccentColor", "Wheel", "Seat"],
+              ["PrimaryColor", "Coating", "AccentColor", "PaintJob", "Wheel", "Seat"], ["Wheel", "PrimaryColor", "AccentColor", "Coating", "PaintJob", "Seat"],
+              ["PrimaryColor", "AccentColor", "Coating", "PaintJob"]]
+    for order in orders:
+        defs = {k: parts[k] for k in order}
+        root = {"title": "Order", "type": "object", "properties": {k.lower(): {"$ref": "#/definitions/" + k} for k in order}, "definitions": defs}
+        yield root, order
+
+
+def check_reuse(doc, names, kind):
+    g = e2e.generate(json.dumps(doc), kind=kind, reuse_model=True)
+    if g.timeout:
+        return "generate() does not terminate"
+    if not g.ok:
+        return f"generation fails: {g.error}" if "IndexError" in str(g.error) or "KeyError" in str(g.error) else None
+    if e2e.parses(g.text):
+        return "output does not parse"
+    tree = ast.parse(g.text)
+    classes = [n.name for n in tree.body if isinstance(n, ast.ClassDef)]
+    assigned = [t.id for n in tree.body if isinstance(n, ast.Assign) for t in n.targets if isinstance(t, ast.Name)]
+    defined = classes + assigned
+    dup = sorted({n for n in defined if defined.count(n) > 1})
+    if dup:
+        return f"{dup} defined twice in the module"
+    used = set()
+    for n in ast.walk(tree):
+        if isinstance(n, ast.AnnAssign):
+            ann = n.annotation
+            if isinstance(ann, ast.Constant) and isinstance(ann.value, str):
+                try:
+                    ann = ast.parse(ann.value, mode="eval").body
+                except SyntaxError:
+                    continue
+            used |= {x.id for x in ast.walk(ann) if isinstance(x, ast.Name)}
+    missing = sorted((used & set(names)) - set(defined))
+    if missing:
+        return f"members are typed with {missing}, which the module does not define (a model was lost)"
+    return None
+
+
 def falsify(ctx):
     rng = ctx.rng("fals")
     cases = []
@@ -396,11 +443,22 @@ def falsify(ctx):
                     if seen <= 8:
                         ctx.violation(f"doc:{kind}:{sorted(opts)}:{json.dumps(doc, sort_keys=True)[:300]}", f"same-named identical schemas ({kind}, {opts}): {why}",
                                       {"doc": doc, "kind": kind, "opts": opts, "why": why})
+    for doc, names in reuse_duplicates():
+        for kind in ("pydantic_v2.BaseModel", "pydantic.BaseModel", "dataclasses.dataclass"):
+            ctx.count("eval_e2e")
+            ctx.nontrivial("reuse-dup:" + ",".join(names) + kind)
+            why = check_reuse(doc, names, kind)
+            if why:
+                seen += 1
+                if seen <= 8:
+                    ctx.violation(f"reuse-dup:{kind}:{','.join(names)}", f"--reuse-model, definitions {names} ({kind}): {why}", {"reuse_doc": doc, "names": names, "kind": kind, "why": why})
     ctx.sample({"graph": enc_nodes(cases[-1])})
 
 
 def replay_finding(ctx, f):
     r = f["replay"]
+    if "reuse_doc" in r:
+        return check_reuse(r["reuse_doc"], r["names"], r["kind"]) is not None
     if "doc" in r:
         return check_doc(r["doc"], r["kind"], r["opts"]) is not None
     return check_graph(r["nodes"], r["kind"], r["opts"], [tuple(t) for t in r.get("twins", [])]) is not None
@@ -408,6 +466,10 @@ def replay_finding(ctx, f):
 
 def replay(ctx, payload):
     r = payload.get("replay", payload)
+    if "reuse_doc" in r:
+        why = check_reuse(r["reuse_doc"], r["names"], r["kind"])
+        print("replay:", why or "no violation")
+        return 1 if why else 0
     if "doc" in r:
         why = check_doc(r["doc"], r["kind"], r["opts"])
         print("replay:", why or "no violation")
